@@ -174,7 +174,11 @@ def install():
     def set_to_path(self, p):
         tag = getattr(p, "tag", None)
         if tag is not None:
-            STATE["parent_log"].append(dict(tag, e="Sample"))
+            # the values as they ARRIVE where the sample is consumed (a path handed over by a worker may have been
+            # overwritten after it was simulated): these are the values the statistics see
+            vals = np.ascontiguousarray(np.asarray(p.jump_path, dtype=float)).tobytes() + \
+                np.ascontiguousarray(np.asarray(p.diffusion_path, dtype=float)).tobytes()
+            STATE["parent_log"].append(dict(tag, e="Sample", vh_sim=tag["vh"], vh=h30(vals), vh2=h60(vals)))
         return orig_set(self, p)
     pathmod.MCPath.set_to_path = set_to_path
 
@@ -276,6 +280,8 @@ def main():
         npaths = 5 if quick else 9
         if mode == "jump":
             npaths = 12 if quick else 25        # enough paths for some to have jumps
+        if nproc > 1:
+            npaths = max(npaths, 20)            # several paths per chunk handed to a worker (chunk size = n / (4 workers))
         hdr = {"kind": f"{ek}:{pk}:{mode}:np{nproc}:{'seed' if seed else 'noseed'}", "nproc": nproc, "seeded": seed is not None,
                "single": nproc == 1}
         ev = []
